@@ -15,7 +15,7 @@ import (
 func init() {
 	register(&propDef{
 		id: "C05", level: "other", perCfg: false,
-		explain: "Necessary structural conditions of C05, decided for all paths of package idl (roles found by shape on top of the cursor analysis E9; readers are analysed in their inlined views, so cursor methods that are not readers themselves - a comment loop, a helper returning (doc, name) - are part of their callers; byte predicates moved into pure helper functions are folded per value). K1 keyword/bracket -> kind table: every construction of a type node stores the kind constant that the edge it lies on denotes - keyword bool/int/float/string/object -> TypeBool/TypeInt/TypeFloat/TypeString/TypeObject (the constant's name is the keyword, capitalised), '?' -> TypeMaybe, '[string]' -> TypeMap, '[]' -> TypeArray, a type-name token -> TypeAlias with Alias = that token, '(' -> TypeStruct; all ten arms must exist. K2 nesting: the ElementType stored in a wrapper node is the result of the recursive type-reader call made after the prefix was consumed on that path; a field's Name and Type are the results of the field-name reader and the type reader of the same iteration; fields are appended at the end. K3 member arms agree (sibling cross-check): each keyword arm of the member loop appends the object its reader returned to the list whose element type is that object's type and to the combined member list, both at the end; the keywords are type/method/error and select readers returning *Alias/*Method/*Error. K4 documentation: in every member reader and for the interface, Doc receives the pending-comment text read after the layout skip that follows the keyword and before the name is read; the skipper clears the pending comment exactly on a newline outside a comment, joins comment lines with a newline and records input[start:pos] of the comment. K5 layout: the bytes skipped between tokens are exactly space, tab, CR, LF; a comment is introduced exactly by '#', its text ends exactly at newline/end of input (charset extraction by finite evaluation over the 257 read results). K6 verbatim: Description receives the entry point's parameter unchanged, Name the interface-name reader's result. K8 token charsets: field names [a-z][A-Za-z0-9_]*, type/method/error names [A-Z][A-Za-z0-9]*, keywords [a-z]*. K10 readers decide on the input alone: no reader branches on a counter or flag kept in the cursor besides the position (a nesting bound, a leftover mode flag). K11 what follows a line-only layout skip (a skipper whose loop does not cross tab, CR, LF and comments) is optional: from such a skip no failure return of the function is reachable except through the full skipper, the success edge of a reader, or a test that the position has changed - a mandatory token behind it would be accepted in one layout only. K12 no rejection for a name that is not in the tree yet: a search of a list or table of the tree under construction (slice/map members of the idl types, local tables filled with names from the input) whose unsuccessful outcome can only end in an error makes acceptance depend on declaration order (forward and mutual references); the duplicate test is the opposite direction (found -> error) and is discharged.",
+		explain: "Necessary structural conditions of C05, decided for all paths of package idl (roles found by shape on top of the cursor analysis E9; readers are analysed in their inlined views, so cursor methods that are not readers themselves - a comment loop, a helper returning (doc, name) - are part of their callers; byte predicates moved into pure helper functions are folded per value). K1 keyword/bracket -> kind table: every construction of a type node stores the kind constant that the edge it lies on denotes - keyword bool/int/float/string/object -> TypeBool/TypeInt/TypeFloat/TypeString/TypeObject (the constant's name is the keyword, capitalised), '?' -> TypeMaybe, '[string]' -> TypeMap, '[]' -> TypeArray, a type-name token -> TypeAlias with Alias = that token, '(' -> TypeStruct; all ten arms must exist. K2 nesting: the ElementType stored in a wrapper node is the result of the recursive type-reader call made after the prefix was consumed on that path; a field's Name and Type are the results of the field-name reader and the type reader of the same iteration; fields are appended at the end. K3 member arms agree (sibling cross-check): each keyword arm of the member loop appends the object its reader returned to the list whose element type is that object's type and to the combined member list, both at the end; the keywords are type/method/error and select readers returning *Alias/*Method/*Error. K4 documentation: in every member reader and for the interface, Doc receives the pending-comment text read after the layout skip that follows the keyword and before the name is read; the skipper clears the pending comment exactly on a newline outside a comment, joins comment lines with a newline and records input[start:pos] of the comment. K5 layout: the bytes skipped between tokens are exactly space, tab, CR, LF; a comment is introduced exactly by '#', its text ends exactly at newline/end of input (charset extraction by finite evaluation over the 257 read results). K6 verbatim: Description receives the entry point's parameter unchanged, Name the interface-name reader's result. K8 token charsets: field names [a-z][A-Za-z0-9_]*, type/method/error names [A-Z][A-Za-z0-9]*, keywords [a-z]*. K10 readers decide on the input alone: no reader branches on a counter or flag kept in the cursor besides the position (a nesting bound, a leftover mode flag). K11 what follows a line-only layout skip (a skipper whose loop does not cross tab, CR, LF and comments) is optional: from such a skip no failure return of the function is reachable except through the full skipper, the success edge of a reader, or a test that the position has changed - a mandatory token behind it would be accepted in one layout only. K12 no rejection for a name that is not in the tree yet: a search of a list or table of the tree under construction (slice/map members of the idl types, local tables filled with names from the input) whose unsuccessful outcome can only end in an error makes acceptance depend on declaration order (forward and mutual references); the duplicate test is the opposite direction (found -> error) and is discharged. K4 also: the join of comment lines writes the newline exactly when text is pending. K9 (= C06.Q8). K13 line ends are consumed only by the layout skipper (breadth-first search over the reader views with alias and constant folding): a token reader that swallows '\n' hides the comment reset from the documentation rule. K14 a type reader that fails on its first byte restores it (judged over the >=128 byte values of the default arm), so the optional error type and the caller's diagnosis see the same cursor. K15 a full layout skip precedes every token of a member (last-event may-analysis on each reader view), so layout between tokens never changes the tree.",
 		notDec:  "Full language inclusion (grammar is a subset of what is accepted); independence from layout at places where the parser simply does not call the skipper (e.g. `( )`, `[] int`, a tab before an error's type) - that needs the external grammar as an oracle for where whitespace is allowed, which is not in the code.",
 		trusted: []string{"bytes.Buffer accumulates what is written to it in order"},
 		run:     runC05,
